@@ -277,7 +277,7 @@ func keys(m map[string]bool) []string {
 
 var mapKeys = []string{"a", "A", "b"}
 var lookups = []string{"a", "A", "b", "c"}
-var mapFams = []string{"str", "int", "obj"} // obj only on json
+var mapFams = []string{"str", "int", "obj", "null"} // obj only on json; null: a key that is present with a null value
 
 type mcase struct {
 	format, fam string
@@ -292,6 +292,11 @@ func mapVal(fam string, i int) (lit string, text string) {
 		return strconv.Itoa(7 + i), strconv.Itoa(7 + i)
 	case "obj":
 		return fmt.Sprintf(`{"x":"v%s"}`, mapKeys[i]), fmt.Sprintf(`{"x":"v%s"}`, mapKeys[i])
+	case "null":
+		// only key a holds null (the other present keys hold strings so a wrong-key answer is visible)
+		if i == 0 {
+			return "null", "null"
+		}
 	}
 	return `"v` + mapKeys[i] + `"`, "v" + mapKeys[i]
 }
@@ -433,6 +438,19 @@ func checkMap(c *vlib.Ctx, m mcase, sample bool) {
 	case "exact":
 		i := strings.Index("aAb", m.keys[0])
 		_, text := mapVal(m.fam, i)
+		if text == "null" {
+			// a key that is present with a null value: how null is printed is not asserted (murex prints
+			// nothing), and `[[` treats null as missing (not asserted: the statement covers `[key]` on maps);
+			// `[key]` must succeed and must not print some other key's value
+			if m.op != "[k]" {
+				c.Extra("not-asserted beyond no-panic: [[ ]] on a null-valued key", 1)
+				return
+			}
+			if s := canon(r.Stdout); r.Exit != 0 || (s != "" && s != "null") {
+				c.Violation("map-key-returns-value", w, fmt.Sprintf("%s => %v; key a is present (value null): expected exit 0 and a null/empty value", m.block(), r))
+			}
+			return
+		}
 		ok := r.Exit == 0 && (canon(r.Stdout) == text || m.fam == "obj" && sameJSON(r.Stdout, text))
 		if !ok {
 			c.Violation("map-key-returns-value", w, fmt.Sprintf("%s => %v; expected value %q and exit 0", m.block(), r, text))
